@@ -37,6 +37,10 @@ CHECKS["C17"] = dict(category="proof",
    technique="Lean theorems over tables regenerated on every run by probing the compiled parser and evaluator (translator), plus differential evaluation of generated expressions",
    text="Proved for all stores and all expressions over the property's operator set: evaluator-of-the-code = Promela/C semantics, and no expression reaches a crash branch; precedence/associativity decided by `decide` over the reduce-first matrix probed from the compiled LALR parser (full statement refuted for the ||/&& pair: recorded finding). The probed tables are regenerated before the Lean library is re-checked, so a change of an evaluator case or of the grammar tables breaks a theorem. Partial: that the compiled parser behaves as an operator-precedence parser with the probed matrix on all inputs, and that the C++ evaluator is the modelled function, rest on the differential suite (all depth-2 trees sampled + random depth<=5, minimal and full parentheses, 3 valuations).",
    design_ref="6 / C17", note="Trusted: Lean kernel; translate/promela_tables.py (exhaustive probes of finite tables); hand model Model.Promela.evalModel; int overflow excluded (mathematical integers); bison/flex generated code as executor.")
+CHECKS["C16"] = dict(category="proof",
+   technique="Lean theorem by mutual structural induction over Data trees about a hand model of getDataAsLua/getLuaAsData, tied by differential round trips through a real lua-datamodel interpreter",
+   text="lua_roundtrip is proved for every unambiguous value with no bound on nesting or array length (the array proof is the numeric-order invariant of the repaired getLuaAsData); the model is compared with the compiled datamodel on values entering by assignment, as event payload and as <send> parameter and read back by evalAsData / _event.data; assignments to the five system variables are exercised on the real interpreter.",
+   design_ref="6 / C16", note="Trusted: Lean kernel; hand model Model.LuaMarshal; liblua/LuaBridge; libstdc++ integer formatting (integers are carried as canonical decimal text, <= 15 digits); floats excluded; INTERPRETED atoms that are Lua source are outside the fragment.")
 PENDING = {}   # id -> reason (filled while the framework is being built)
 
 def main():
